@@ -121,22 +121,40 @@ def nontrivial(ex):
 
 
 def key_fn(kind, ex, idx, observed):
+    """key = which clause of the statement the rejected call contradicts (for a rejected document: what is wrong with it)"""
     op = ex[idx][0] if 0 <= idx < len(ex) else "?"
     if kind == "reject" and op == "endgroup":
-        # the strings that go into attribute values of this group's file
-        vals = [bytes.fromhex(ex[0][1])]
         g = max(i for i in range(idx) if ex[i][0] == "group")
+        group = bytes.fromhex(ex[g][1])
+        tests, attrs = [], [bytes.fromhex(ex[0][1]), group]
         for l in ex[g:idx]:
-            if l[0] == "group":
-                vals.append(bytes.fromhex(l[1]))
-            elif l[0] == "test":
-                vals += [bytes.fromhex(l[1]), bytes.fromhex(l[2])]
+            if l[0] == "test":
+                ign = l[5] == "i" and ex[0][5] != "1"
+                tests.append({"name": bytes.fromhex(l[1]), "file": bytes.fromhex(l[2]), "line": int(l[4]), "ign": ign, "fails": 0})
+                attrs += [tests[-1]["name"], tests[-1]["file"]]
             elif l[0] == "fail":
-                vals.append(bytes.fromhex(l[1]))
-        wf = bool(observed and observed.get("doc", {}).get("wellformed"))
-        if any(ATTR_BREAKERS & set(v) for v in vals):
-            return "reject:endgroup:name-or-path-with-xml-special-in-attribute"
-        return "reject:endgroup:" + ("well-formed-but-unfaithful" if wf else "ill-formed")
+                tests[-1]["fails"] += 1
+                attrs.append(bytes.fromhex(l[1]))
+        special = any(ATTR_BREAKERS & set(v) for v in attrs)
+        doc = (observed or {}).get("doc") or {}
+        if not doc.get("wellformed"):
+            return "reject:endgroup:ill-formed-xml" + (":name-or-path-with-xml-special-in-attribute" if special else "")
+        cases = doc.get("cases", [])
+        names_differ = bytes(doc["suite"]["name"]) != group or len(cases) != len(tests) or \
+            any(bytes(c["name"]) != t["name"] or bytes(c["file"]) != t["file"] for c, t in zip(cases, tests))
+        if names_differ and special:
+            return "reject:endgroup:name-changed:name-or-path-with-xml-special-in-attribute"
+        if not doc.get("structure") or len(cases) != len(tests) or names_differ or any(c["line"] != t["line"] for c, t in zip(cases, tests)):
+            return "reject:endgroup:test-case-elements"
+        if doc["suite"]["tests"] != len(tests):
+            return "reject:endgroup:suite-test-count"
+        if doc["suite"]["failures"] != sum(1 for t in tests if t["fails"]):
+            return "reject:endgroup:suite-failure-count"
+        if any(c["skipped"] != t["ign"] for c, t in zip(cases, tests)):
+            return "reject:endgroup:skipped-marker"
+        if any(c["failed"] != (t["fails"] > 0) for c, t in zip(cases, tests)):
+            return "reject:endgroup:failure-element"
+        return "reject:endgroup:texts-or-file-name"
     return "%s:%s" % (kind, op)
 
 
